@@ -243,3 +243,237 @@ func runOpenRounds(c C10Case, p *muxPair, alloc *idAllocator) (string, bool, int
 }
 
 var _ = ev.Outcome{}
+
+// ---------------------------------------------------------------------------------------
+// mixed rounds: on one mux end several goroutines, released together, change the set of open
+// connections at the same time - Open/Dialer/Listen+Accept of a new id, Close of an open
+// connection of another id, re-Open of a closed id. Afterwards every id that is open by the
+// model must still receive exactly what is written to it, and a closed connection nothing.
+
+// C10Mixed: Rounds[i] has one letter per goroutine of round i: o = Open of a new id, d = Dialer,
+// l = Listen+Accept, c = Close of the longest open connection, r = re-Open of the longest
+// closed id (a new id if none is closed).
+type C10Mixed struct {
+	Side   int      `json:"side"`
+	Rounds []string `json:"rounds"`
+}
+
+func genMixed(t *rapid.T) *C10Mixed {
+	if rapid.IntRange(0, 3).Draw(t, "mixed") == 0 {
+		return nil
+	}
+	return &C10Mixed{
+		Side:   rapid.IntRange(0, 1).Draw(t, "mixed_side"),
+		Rounds: rapid.SliceOfN(rapid.StringMatching(`[odlr]c[odlrc]{0,2}`), tierPick(60, 150), tierPick(100, 250)).Draw(t, "mixed_rounds"),
+	}
+}
+
+type mixedConn struct {
+	id     uint32
+	h      net.Conn // handle at the mux under test
+	peer   net.Conn
+	seq    int
+	closed bool
+}
+
+// runMixedRounds returns a verdict ("" = fine) and whether it is a stall that has to be
+// confirmed by re-execution.
+func runMixedRounds(c C10Case, p *muxPair, alloc *idAllocator) (string, bool) {
+	mx := c.Mixed
+	if mx == nil || mx.Side < 0 || mx.Side > 1 || len(c.IDs) == 0 {
+		return "", false
+	}
+	S, P := mx.Side, 1-mx.Side
+	bp := getBuf()
+	defer putBuf(bp)
+	buf := *bp
+	var open, closed []*mixedConn
+	newConn := func() (*mixedConn, string) {
+		id := alloc.fresh()
+		peer, err := p.m[P].Open(multiplex.ConnID(id))
+		if err != nil || peer == nil {
+			return nil, fmt.Sprintf("Open(%d) on the peer returned (%v, %v)", id, peer, err)
+		}
+		return &mixedConn{id: id, peer: peer}, ""
+	}
+	for i := 0; i < 3; i++ {
+		mc, bad := newConn()
+		if bad != "" {
+			return bad, false
+		}
+		h, err := p.m[S].Open(multiplex.ConnID(mc.id))
+		if err != nil || h == nil {
+			return fmt.Sprintf("Open(%d) returned (%v, %v)", mc.id, h, err), false
+		}
+		mc.h = h
+		open = append(open, mc)
+	}
+	// verify: the peer writes one tagged frame to each listed id, then a marker to the first
+	// connection of the case. The trunk is FIFO and the receiving mux dispatches frames one
+	// after the other, so once the marker has arrived every frame written before it has been
+	// dispatched: a frame that is not in its connection's queue then will never arrive.
+	verify := func(where string, conns []*mixedConn) (string, bool) {
+		for _, mc := range conns {
+			w := 4
+			if mc.closed {
+				w = 5
+			}
+			d := payloadDesc{Conn: 0xfffe, Dir: P, Writer: w, Seq: mc.seq, Len: 3 + mc.seq%29, ID: mc.id}
+			b := make([]byte, d.Len)
+			d.fill(b)
+			if n, err := mc.peer.Write(b); err != nil || n != len(b) {
+				return fmt.Sprintf("%s: Write of %d bytes to id=%d returned (%d, %v)", where, len(b), mc.id, n, err), false
+			}
+		}
+		if _, err := p.conns[P][0].Write([]byte{0xA6}); err != nil {
+			return fmt.Sprintf("%s: barrier Write returned %v", where, err), false
+		}
+		r, ok := timedRead(p.conns[S][0], buf)
+		if !ok {
+			return fmt.Sprintf("%s: incomplete: the barrier frame written to id=%d was not delivered within %v", where, c.IDs[0], c10StallAfter), true
+		}
+		if r.err != nil || r.n != 1 || buf[0] != 0xA6 {
+			return fmt.Sprintf("%s: barrier read on id=%d returned (%d bytes, %v) instead of the 1 byte written", where, c.IDs[0], r.n, r.err), false
+		}
+		for _, mc := range conns {
+			if mc.closed {
+				// a closed connection hands out nothing that was written after its Close
+				for k := 0; k < 4; k++ {
+					r, ok := timedRead(mc.h, buf)
+					if !ok {
+						return fmt.Sprintf("%s: Read on the closed connection id=%d did not return within %v", where, mc.id, c10StallAfter), true
+					}
+					if r.err == nil {
+						return fmt.Sprintf("%s: the closed connection id=%d handed out %d bytes that were written to the id after it had been closed", where, mc.id, r.n), false
+					}
+				}
+				mc.seq++
+				continue
+			}
+			d := payloadDesc{Conn: 0xfffe, Dir: P, Writer: 4, Seq: mc.seq, Len: 3 + mc.seq%29, ID: mc.id}
+			r, ok := timedRead(mc.h, buf)
+			if !ok {
+				return fmt.Sprintf("%s: incomplete: the frame written to the open id=%d was dropped: a frame written after it on the same trunk was delivered, this one is not in the connection's queue (Read blocked for %v)",
+					where, mc.id, c10StallAfter), false
+			}
+			if r.err != nil {
+				return fmt.Sprintf("%s: Read on the open connection id=%d returned %v instead of the frame written to it", where, mc.id, r.err), false
+			}
+			if r.n != d.Len || d.match(buf[:r.n], 0) >= 0 {
+				return fmt.Sprintf("%s: Read on id=%d returned %d bytes that are not the frame written to it (%d bytes)", where, mc.id, r.n, d.Len), false
+			}
+			mc.seq++
+		}
+		return "", false
+	}
+	for ri, ops := range mx.Rounds {
+		where := fmt.Sprintf("mixed round %d (mux %d, %q)", ri, S, ops)
+		type job struct {
+			op byte
+			mc *mixedConn
+			h  net.Conn
+			e  error
+		}
+		var jobs []*job
+		for i := 0; i < len(ops); i++ {
+			op := ops[i]
+			switch op {
+			case 'c':
+				if len(open) == 0 {
+					continue
+				}
+				jobs = append(jobs, &job{op: 'c', mc: open[0]})
+				open = open[1:]
+			case 'r':
+				if len(closed) > 0 {
+					jobs = append(jobs, &job{op: 'r', mc: closed[0]})
+					closed = closed[1:]
+					continue
+				}
+				op = 'o'
+				fallthrough
+			default:
+				if len(open)+len(jobs) >= 10 {
+					continue
+				}
+				mc, bad := newConn()
+				if bad != "" {
+					return where + ": " + bad, false
+				}
+				jobs = append(jobs, &job{op: op, mc: mc})
+			}
+		}
+		var ready atomic.Int32
+		var goFlag atomic.Bool
+		var wg sync.WaitGroup
+		for _, j := range jobs {
+			wg.Add(1)
+			go func(j *job) {
+				defer wg.Done()
+				defer func() {
+					if e := recover(); e != nil {
+						j.e = fmt.Errorf("panic: %v", e)
+					}
+				}()
+				ready.Add(1)
+				for n := 0; !goFlag.Load(); n++ {
+					if n > 2000 {
+						runtime.Gosched()
+					}
+				}
+				id := multiplex.ConnID(j.mc.id)
+				switch j.op {
+				case 'c':
+					j.e = j.mc.h.Close()
+				case 'd':
+					j.h, j.e = p.m[S].Dialer(id)("", "")
+				case 'l':
+					var l net.Listener
+					if l, j.e = p.m[S].Listen(id); j.e == nil {
+						j.h, j.e = l.Accept()
+					}
+				default: // o, r
+					j.h, j.e = p.m[S].Open(id)
+				}
+			}(j)
+		}
+		for n := 0; ready.Load() < int32(len(jobs)); n++ {
+			if n > 2000 {
+				runtime.Gosched()
+			}
+		}
+		goFlag.Store(true)
+		done := make(chan struct{})
+		go func() { wg.Wait(); close(done) }()
+		select {
+		case <-done:
+		case <-time.After(c10StallAfter):
+			return fmt.Sprintf("%s: the concurrent Open/Close calls did not return within %v", where, c10StallAfter), true
+		}
+		var touched []*mixedConn
+		for _, j := range jobs {
+			if j.e != nil || (j.op != 'c' && j.h == nil) {
+				return fmt.Sprintf("%s: operation %q on id=%d returned (%v, %v)", where, j.op, j.mc.id, j.h, j.e), false
+			}
+			if j.op == 'c' {
+				j.mc.closed = true
+				closed = append(closed, j.mc)
+			} else {
+				j.mc.closed = false
+				j.mc.h = j.h
+				open = append(open, j.mc)
+			}
+			touched = append(touched, j.mc)
+		}
+		if ri%16 == 15 || ri == len(mx.Rounds)-1 {
+			touched = append(append([]*mixedConn{}, open...), closed...)
+		}
+		if bad, stall := verify(where, touched); bad != "" {
+			return bad, stall
+		}
+		if len(closed) > 12 {
+			closed = closed[len(closed)-12:]
+		}
+	}
+	return "", false
+}
